@@ -29,9 +29,9 @@ def build_harness(tags="verif", race=False):
         return _built[key]
     out = os.path.join(scratch(), "vharness" + ("-race" if race else ""))
     cmd = ["go", "build", "-tags", tags, "-o", out]
-    if os.environ.get("VERIF_COVER"):
+    if os.environ.get("VERIF_COVER") and not race:
         # coverage survey (lib/coverage.sh): which statements of the implementation the checks execute at all
-        cmd[2:2] = ["-cover", "-coverpkg=github.com/jmeaster30/vore/..."]
+        cmd[2:2] = ["-cover", "-coverpkg=vharness,github.com/jmeaster30/vore/..."]   # the main package must be instrumented too, or nothing is written
     env = dict(GOENV)
     if race:
         cmd.insert(2, "-race")
